@@ -64,6 +64,13 @@ var (
 )
 
 func vpResetJose() {
+	// entries of caches the package may keep do not survive from one run of a harness to the next
+	for _, m := range vpGoCaches {
+		for k := range m {
+			delete(m, k)
+		}
+	}
+	vpGoCacheLookups = 0
 	vpParseCalls, vpSigAlgs, vpKeyAlgs, vpEncAlgs = 0, nil, nil, nil
 	vpTokKind, vpTokSignedBy, vpTokEncBy, vpTokAlgs = 0, 0, 0, nil
 	vpClaimsKeyLog, vpIdpToken, vpIdpCalls = nil, "", 0
